@@ -67,6 +67,7 @@ class NonPickler(Pickler):
 
 class JsonPickler(Pickler):
     json_serial = None
+    UnpicklingError = (ValueError, TypeError)  # json.JSONDecodeError and UnicodeDecodeError are ValueErrors
 
     @staticmethod
     def loads(value: bytes):
